@@ -53,6 +53,15 @@ func (c sweepCase) class() string {
 
 // sizedObject builds a valid object whose encoding has exactly total bytes.
 func sizedObject(label string, total int) *item {
+	return sizedObjectWith(label, total, func(p []byte) {
+		for i := range p {
+			p[i] = byte(i*13+7) ^ byte(i>>8)
+		}
+	})
+}
+
+// sizedObjectWith: like sizedObject, the payload bytes are produced by fill.
+func sizedObjectWith(label string, total int, fill func(p []byte)) *item {
 	cnr := cid.ID(h32("sweep-cnr"))
 	var u160 util.Uint160
 	hh := h32("owner")
@@ -73,9 +82,7 @@ func sizedObject(label string, total int) *item {
 				o.SetAttributes(object.NewAttribute("k", "vvvv"[:attr]))
 			}
 			p := make([]byte, pl)
-			for i := range p {
-				p[i] = byte(i*13+7) ^ byte(i>>8)
-			}
+			fill(p)
 			o.SetPayload(p)
 			o.SetPayloadSize(uint64(pl))
 			enc := o.Marshal()
